@@ -846,7 +846,10 @@ def genJoinSer (rng : Rng) (len : Nat) : Rng × Array String :=
   let lines := (List.range capL).foldl (fun (ls : Array String) v =>
     (((ls.push s!"slice g0 {v} g{3 + v % 3} -").push s!"observe g{3 + v % 3}").push s!"vprint g0 {v}").push s!"inspect g0 {v}") lines
   -- the allocator on a graph with removed slots (C05): ids it returns are not present
-  (s1.rng, lines ++ #["xml g0", "dot g0", "debug g0", "display g0", "observe g0", "nextid g0", "observe g0", "nextid g0", "observe g0"])
+  (s1.rng, lines ++ #["xml g0", "dot g0", "debug g0", "display g0", "observe g0",
+    -- a clone of it (C10: every reachable graph): the same internal state, and the same ids from the allocator afterwards
+    "clone g0 g7", "observe g7", "snap g0", "snap g7", "samesnap g0 g7",
+    "nextid g0", "nextid g7", "observe g0", "observe g7", "nextid g0", "nextid g7", "observe g0", "observe g7", "nextid g0", "nextid g7"])
 
 /-- render profile: a history, then every text export of the graph and of each present (and one absent) vertex;
     repeated once more after some further calls. Here: every export of the graph held by handle `h` (which has the
